@@ -43,6 +43,8 @@ def run(c):
         {"kind": "container", "args": ["tree", "2", "TOKEN"], "timeout_ms": 3000, "cb": "fail_late", "sync_after": True},
         {"kind": "container", "args": ["tree", "2", "TOKEN", "setsid"], "timeout_ms": 3000, "cb": "fail_late", "sync_after": True, "files": True},
         {"kind": "idmapfail", "args": [], "timeout_ms": 1000},
+        {"kind": "destroy_broken", "args": [], "timeout_ms": 3000},
+        {"kind": "destroy_dead", "args": [], "timeout_ms": 3000},
         {"kind": "open", "args": [], "timeout_ms": 1000},
         {"kind": "forkfail", "args": [], "timeout_ms": 1000},
         {"kind": "clonefail", "args": [], "timeout_ms": 1000},
